@@ -58,10 +58,20 @@ class Writer:
             self.srng.shuffle(pairs)
         ref = (lambda t: ''.join(c if ord(c) < 127 else '&#%d;' % ord(c) for c in t)) \
             if self.style.get('charrefs') else (lambda t: t)
+        esc = esc_attr
+        if self.style.get('raw_gt'):
+            # ">" may stand for itself in an attribute value; so may the other quote character
+            esc = (lambda v, qq: esc_attr(v, qq).replace('&gt;', '>'))
+        eq = '='
+        sep = ' '
+        if self.style.get('loose_attrs'):
+            # white space is allowed around "=" and any white space may separate attributes
+            eq = self.srng.choice([' = ', '= ', ' =', '\n    = '])
+            sep = self.srng.choice([' ', '  ', '\n      ', '\t'])
         if self.style.get('mixed_quotes'):
-            return ''.join(' %s=%s%s%s' % (k, qq, ref(esc_attr(str(v), qq)), qq)
+            return ''.join('%s%s%s%s%s%s' % (sep, k, eq, qq, ref(esc(str(v), qq)), qq)
                            for (k, v), qq in ((pv, self.srng.choice('"\'')) for pv in pairs))
-        return ''.join(' %s=%s%s%s' % (k, q, ref(esc_attr(str(v), q)), q)
+        return ''.join('%s%s%s%s%s%s' % (sep, k, eq, q, ref(esc(str(v), q)), q)
                        for k, v in pairs if v is not None)
 
     def meta_pairs(self, meta):
@@ -304,6 +314,9 @@ def ili_tsv(ili_file) -> bytes:
             if len(head) > 2 else [head[0], 'superseded_by'] + head[1:]
     lines = ['\t'.join(head)]
     for r in ili_file['rows']:
+        if r.get('blank'):
+            lines.append('')
+            continue
         vals = []
         for c in cols:
             if c == 'ili':
